@@ -58,6 +58,7 @@ type Plan struct {
 	X      map[string]int64  `json:"x,omitempty"`    // property specific numeric knobs
 	XS     map[string]string `json:"xs,omitempty"`   // property specific string knobs
 	Progs  [][]wire.Op       `json:"progs,omitempty"`
+	XV     [][]uint64        `json:"xv,omitempty"` // property specific numeric lists
 }
 
 // Clone deep-copies a plan through JSON.
